@@ -180,11 +180,12 @@ class Repo:
                 if hf or hm:
                     try:
                         clone = copy.deepcopy(fn)
+                        direct = inline.devirtualise(clone, set(hf)) if hf else set()
                         inl = inline.Inliner(hf, hm, cls=key[0].split('.')[0] if '.' in key[0] else None)
-                        if inl.run(clone):
+                        if inl.run(clone) or direct:
                             holder[idx] = clone
                             fn = clone
-                            self.inlined.setdefault(rel, {})[key[0]] = sorted(set(inl.done))
+                            self.inlined.setdefault(rel, {})[key[0]] = sorted(set(inl.done) | direct)
                             spliced_any = True
                     except Exception as e:
                         self.errors.append((rel + ' (inlining %s)' % key[0], repr(e)))
